@@ -308,6 +308,9 @@ func genUpgrade(g *Gen, n int) {
 				ini := g.logBig(15)
 				wd := new(big.Int).Rand(g.r, ini)
 				sent := new(big.Int).Rand(g.r, new(big.Int).Sub(ini, wd))
+				if g.chance(0.3) {
+					sent = new(big.Int).Sub(ini, wd) // a used-up pool: nothing locked any more, history must survive
+				}
 				g.emit("v.up.v2pool %s %s %s %d %d %s %s %s", o, fmt.Sprintf("p%d", i), esc(g.pick("Validators", "Advisors", "x y")), now-int64(g.intn(100))*sec, now+int64(g.intn(100000))*sec, ini, wd, sent)
 			}
 			g.emit("v.up.migrate3")
@@ -342,6 +345,9 @@ func genUpgrade(g *Gen, n int) {
 					ov := g.logBig(20)
 					g.emit("v.acct %s cva [uc4e=%s] %d %d", a, ov, st, en)
 					g.emit("v.fund %s [uc4e=%s]", a, ov)
+					if g.chance(0.5) {
+						g.emit("v.delegate %s uc4e %s", a, new(big.Int).Add(new(big.Int).Rand(g.r, ov), big.NewInt(1)))
+					}
 					facts = append(facts, fmt.Sprint(time.Unix(st, 0).AddDate(1, 0, 0).Unix()), fmt.Sprint(time.Unix(en, 0).AddDate(1, 0, 0).Unix()))
 				}
 				if g.chance(0.6) {
